@@ -282,7 +282,7 @@ def rule_R5(body, log):
 
 
 def rule_R4(body, log):
-    """`RECV.modify(|tables| BODY)` in tail position -> `{ let tables = RECV.tables_mut()?; BODY }`"""
+    """`RECV.modify(|tables| BODY)` in tail position -> `{ RECV.modify_begin()?; let tables = RECV.tables_mut(); BODY }`"""
     toks = tokenize(body)
     n = len(toks)
     assert toks[0][1] == '{'
@@ -338,9 +338,9 @@ def rule_R4(body, log):
     inner = join(toks[b:last + 1])
     head = join(toks[:r + 1])
     lead = head[len(head.rstrip()):] if head.rstrip() != head else '\n        '
-    new = head.rstrip() + lead + '{ let %s = %s.tables_mut()?;\n        let __r = %s;\n        __r }\n    }' % (param, recv, inner.strip())
+    new = head.rstrip() + lead + '{ %s.modify_begin()?;\n        let %s = %s.tables_mut();\n        let __r = %s;\n        __r }\n    }' % (recv, param, recv, inner.strip())
     # note: `let __r = { BODY }; __r` keeps BODY's tail expression a tail expression of a block
-    log.append({'rule': 'R4', 'replaced': '%s.modify(|%s| ..)' % (recv, param), 'with': 'let %s = %s.tables_mut()?; ..' % (param, recv)})
+    log.append({'rule': 'R4', 'replaced': '%s.modify(|%s| ..)' % (recv, param), 'with': '%s.modify_begin()?; let %s = %s.tables_mut(); ..' % (recv, param, recv)})
     return new
 
 
@@ -625,15 +625,15 @@ def parse_template(path):
                 else:
                     cur.loops[int(rest)] = []
                     target = cur.loops[int(rest)]
-            elif key.startswith('before '):
-                lit = d[len('before '):]
-                assert lit.endswith(':')
-                cur.before.append((lit[:-1].strip(), []))
+            elif key.startswith('before ') or key.startswith('before['):
+                m_ = re.match(r'before(?:\[(\d+)\])? (.*):$', d)
+                assert m_, d
+                cur.before.append(((m_.group(2).strip(), int(m_.group(1) or 1)), []))
                 target = cur.before[-1][1]
-            elif key.startswith('after '):
-                lit = d[len('after '):]
-                assert lit.endswith(':')
-                cur.after.append((lit[:-1].strip(), []))
+            elif key.startswith('after ') or key.startswith('after['):
+                m_ = re.match(r'after(?:\[(\d+)\])? (.*):$', d)
+                assert m_, d
+                cur.after.append(((m_.group(2).strip(), int(m_.group(1) or 1)), []))
                 target = cur.after[-1][1]
             elif key.startswith('closure '):
                 kidx = int(key[len('closure '):])
@@ -776,18 +776,26 @@ def render_extract(ex, vac=False, strip_proof=False):
             log.append({'rule': 'R7', 'loop': kidx, 'iter_name': nm})
         for s, e, newc in sorted(edits, reverse=True):
             body = body[:s] + newc + body[e:]
-    for lit, lines in ex.before:
-        if lit not in body:
-            degraded.append('before: literal not found: %r' % lit)
+    def nth_index(text, lit, n):
+        p = -1
+        for _ in range(n):
+            p = text.find(lit, p + 1)
+            if p < 0:
+                return -1
+        return p
+    for (lit, nth), lines in ex.before:
+        p = nth_index(body, lit, nth)
+        if p < 0:
+            degraded.append('before: literal (occurrence %d) not found: %r' % (nth, lit))
             continue
-        p = body.index(lit)
         body = body[:p] + '\n'.join(lines) + '\n        ' + body[p:]
         log.append({'rule': 'R7', 'before': lit, 'spliced_lines': len(lines)})
-    for lit, lines in ex.after:
-        if lit not in body:
-            degraded.append('after: literal not found: %r' % lit)
+    for (lit, nth), lines in ex.after:
+        p = nth_index(body, lit, nth)
+        if p < 0:
+            degraded.append('after: literal (occurrence %d) not found: %r' % (nth, lit))
             continue
-        p = body.index(lit) + len(lit)
+        p = p + len(lit)
         body = body[:p] + '\n        ' + '\n'.join(lines) + '\n        ' + body[p:]
         log.append({'rule': 'R7', 'after': lit, 'spliced_lines': len(lines)})
     contract = list(ex.contract)
